@@ -428,11 +428,20 @@ impl World {
         self.emit(ctx, &format!("sync {}", now), "ok").await;
     }
     /// one iteration of the health loop of varpulis-cli/src/main.rs, phase by phase (shape pinned by `loop_shape`)
-    async fn tick(&mut self, ctx: &mut Ctx, outcomes: &[bool]) {
+    async fn tick(&mut self, ctx: &mut Ctx, outcomes: &[bool]) { self.tick_opt(ctx, outcomes, true).await }
+    /// `with_sync = false`: the phases after `sync_from_raft` in isolation. In the shipped loop the sync always
+    /// comes first and re-stamps every Ready worker, so the sweep marks nobody and the failover phase is never
+    /// reached (finding C38-sync-refreshes-heartbeat-stamps); the isolated phases tie the model of those phases.
+    async fn tick_opt(&mut self, ctx: &mut Ctx, outcomes: &[bool], with_sync: bool) {
         clock::verif_set_ms(self.now);
         let now = self.now;
-        { let mut c = self.coord.write().await; c.update_raft_role(); c.sync_from_raft(); }
-        self.emit(ctx, &format!("sync {}", now), "ok").await;
+        if with_sync {
+            { let mut c = self.coord.write().await; c.update_raft_role(); c.sync_from_raft(); }
+            self.emit(ctx, &format!("sync {}", now), "ok").await;
+        } else {
+            ctx.count("tick.phases_in_isolation");
+            { let mut c = self.coord.write().await; c.update_raft_role(); }
+        }
         if !self.coord.read().await.ha_role.is_writer() { ctx.count("tick.not_writer"); return; }
         // health_sweep + propagation of the unhealthy status
         let failed: Vec<WorkerId> = {
@@ -512,7 +521,8 @@ async fn scenario(ctx: &mut Ctx, base: &str, script: &Script, idx: u64) {
     if idx == 0 { ctx.case("loopshape", &loop_shape()); }
     if ctx.rng.chance(1, 6) {
         ctx.count("scenario.with_startup_policy");
-        w.startup_policy(ctx, Some(ScalingPolicy { min_workers: 1, max_workers: 4 + ctx.rng.below(3) as usize, scale_up_threshold: 5.0, scale_down_threshold: 1.0, cooldown_secs: 60, webhook_url: None })).await;
+        let mx = 4 + ctx.rng.below(3) as usize;
+        w.startup_policy(ctx, Some(ScalingPolicy { min_workers: 1, max_workers: mx, scale_up_threshold: 5.0, scale_down_threshold: 1.0, cooldown_secs: 60, webhook_url: None })).await;
     }
     let nw = 2 + ctx.rng.below(2);
     let wn = |i: u64| format!("w{}", i);
@@ -584,7 +594,8 @@ async fn scenario(ctx: &mut Ctx, base: &str, script: &Script, idx: u64) {
                     if !ids.is_empty() { let x = ctx.rng.pick(&ids).clone(); let n = w.assigned_len(&x).await; w.heartbeat(ctx, &x, n, 5).await; }
                 }
                 let o: Vec<bool> = (0..8).map(|_| !ctx.rng.chance(1, 6)).collect();
-                w.tick(ctx, &o).await;
+                let with_sync = !ctx.rng.chance(1, 3);
+                w.tick_opt(ctx, &o, with_sync).await;
             }
         }
     }
@@ -622,7 +633,7 @@ async fn scenario3(ctx: &mut Ctx, base: &str, script: &Script) {
         let anyw = wn(1 + ctx.rng.below(3));
         match ctx.rng.below(12) {
             0 | 1 => { w.set_time(w.now + ctx.rng.below(3000)); let n = w.assigned_len(&anyw).await; w.heartbeat(ctx, &anyw, n, 9).await; }
-            2..=4 => { if w.groups().await.len() < 2 { let specs = vec![PSpec { name: "p".into(), aff: None, replicas: 1 + ctx.rng.below(2) as usize }]; w.deploy(ctx, "grp", &specs, &[true, true, !ctx.rng.chance(1, 4)]).await; } }
+            2..=4 => { if w.groups().await.len() < 2 { let specs = vec![PSpec { name: "p".into(), aff: None, replicas: 1 + ctx.rng.below(2) as usize }]; let o3 = !ctx.rng.chance(1, 4); w.deploy(ctx, "grp", &specs, &[true, true, o3]).await; } }
             5 => { let gs = w.groups().await; if !gs.is_empty() { let g = ctx.rng.pick(&gs).clone(); w.teardown(ctx, &g).await; } }
             6 | 7 => { let ps = w.placements().await; if !ps.is_empty() { let (g, n, _) = ctx.rng.pick(&ps).clone(); w.manual_migrate(ctx, &g, &n, &anyw, true).await; } }
             8 | 9 => { let name = ctx.rng.pick(&["c1", "c2"]).to_string(); let cn = gen_connector(ctx, &name); if ctx.rng.chance(2, 3) { w.connector(ctx, "create", &name, Some(cn)).await; } else { w.connector(ctx, "delete", &name, None).await; } }
